@@ -796,8 +796,9 @@ pub fn check_buffer(ctx: &mut Ctx, buf: &[u8], o: &Opts) -> Outcome {
             Ok(bad) => {
                 ctx.count_n("iterator-adaptor-comparisons", ks.len() as u64 * 4 + 4);
                 for (how, want, got) in bad {
+                    let tag = if ctx.prop == "C02" || ctx.prop == "C03" { ctx.prop.clone() } else { "C10".to_string() };
                     ctx.violation(
-                        "C10",
+                        &tag,
                         "exposure-by-any-iteration",
                         "iter_attributes",
                         &format!("{},{}", how.split('(').next().unwrap_or(""), tail_shape(buf, &rp.attrs)),
@@ -1249,6 +1250,47 @@ pub fn check_policing(
             }
             ctx.count("policed");
             let want = ref_police(exposed_types, sup, req);
+            // C10: policing is one more way attributes are "exposed".  If the answer is the one the rule
+            // gives for ALL attributes of the message (hidden ones included) and not the one for the
+            // exposed ones, something located after an integrity attribute leaked through this entry point.
+            {
+                let all_types: Vec<u16> = rp.attrs.iter().map(|a| a.ty).collect();
+                if all_types.len() != exposed_types.len() {
+                    ctx.count("policed-with-hidden-attributes");
+                    let alt = ref_police(&all_types, sup, req);
+                    if alt != want {
+                        let got_code: Option<u16> = res.as_ref().and_then(|b| {
+                            let rr = ref_parse(b);
+                            rr.attrs.iter().find(|a| a.ty == 0x0009).and_then(|a| match ref_decode(Kind::ErrorCode, a.value(b), &rr.tid) {
+                                Some(RefVal::Error { code, .. }) => Some(code),
+                                _ => None,
+                            })
+                        });
+                        let got_list: Option<Vec<u16>> = res.as_ref().and_then(|b| {
+                            let rr = ref_parse(b);
+                            rr.attrs.iter().find(|a| a.ty == 0x000A).and_then(|a| match ref_decode(Kind::UnknownAttributes, a.value(b), &rr.tid) {
+                                Some(RefVal::TypeList(l)) => Some(dedup(&l)),
+                                _ => None,
+                            })
+                        });
+                        let matches = |v: &Option<(u16, Vec<u16>)>| match v {
+                            None => res.is_none(),
+                            Some((c, l)) => got_code == Some(*c) && (*c != 420 || got_list.as_ref() == Some(&dedup(l))),
+                        };
+                        if matches(&alt) && !matches(&want) {
+                            ctx.violation(
+                                "C10",
+                                "policing-sees-only-exposed-attributes",
+                                "Message::check_attribute_types",
+                                &tail_shape(buf, &rp.attrs),
+                                wv,
+                                format!("the verdict for the exposed attributes: {want:x?}"),
+                                format!("the verdict for all attributes, hidden ones included: {alt:x?}"),
+                            );
+                        }
+                    }
+                }
+            }
             match (&want, &res) {
                 (None, None) => ctx.count("police-none"),
                 (Some((code, unknown)), Some(bytes)) => {
